@@ -250,6 +250,14 @@ class sptensor:
             ).astype(int)
             subs = np.unique(subs, axis=0)
             cnt += 1
+        # Top up with further draws instead of returning fewer than requested
+        while len(subs) < nonzeros:
+            more = (
+                np.random.uniform(size=[nonzeros - len(subs), len(shape)]).dot(
+                    np.diag(shape)
+                )
+            ).astype(int)
+            subs = np.unique(np.vstack((subs, more)), axis=0)
 
         nonzeros = int(min(nonzeros, subs.shape[0]))
         subs = subs[0:nonzeros, :]
